@@ -86,7 +86,9 @@ var argDocs = []string{
 	`{ __schema { types { name fields(includeDeprecated: true) { name } } } __type(name: "Inner") { name } }`,
 }
 
-var customLits = []string{`1`, `"s"`, `99999999999999999999`, `-99999999999999999999`, `9223372036854775807`, `9223372036854775808`, `-9223372036854775808`, `1e999`, `-1e999`, `1e-999`, `1.7976931348623159e308`, `1.7976931348623157e308`, `0.0`, `true`, `null`, `[]`, `{}`}
+var customLits = []string{`1`, `"s"`, `99999999999999999999`, `-99999999999999999999`, `9223372036854775807`, `9223372036854775808`, `-9223372036854775808`, `1e999`, `-1e999`, `1e-999`, `1.7976931348623159e308`, `1.7976931348623157e308`, `0.0`, `true`, `null`, `[]`, `{}`,
+	// integers beyond float64 (→ ±Inf), 2^63 boundaries, 2^64 boundaries, exponent forms
+	strings.Repeat("9", 400), "-" + strings.Repeat("9", 400), `-9223372036854775809`, `18446744073709551615`, `18446744073709551616`, `1E+400`, `-0.0E-999`, `123456789012345678901234567890.5e-10`}
 
 var argVarSets = []string{
 	`(m I)`,
@@ -219,7 +221,7 @@ func (c *Ctx) checkArgMaps(sdl string, report bool) {
 		return
 	}
 	for _, k := range keys {
-		c.Report("spec", "argmap-panic:literal-out-of-range(R15)", fmt.Sprintf("ArgumentMap panics (%s) on a validated document: %s", k, st.panicEx[k]),
+		c.Report("spec", "argmap-panic(R15-was-repaired)", fmt.Sprintf("ArgumentMap panics (%s) on a validated document: %s", k, st.panicEx[k]),
 			map[string]any{"op": "argmap", "schema": sdl, "document": st.panicEx[k], "panic": k})
 	}
 	for _, e := range st.specEx {
